@@ -22,7 +22,7 @@ RULE = ('systematic schedule enumeration: for each chosen element class X (quick
         'and is pre-empted once, at every executed library line k in turn (all k; a stride keeps it <= 600 points per class and family '
         'in quick), while thread B runs its own first use of X (family same) or of a class sharing attributes with X (family '
         'shared), or an incomplete / differently valued document, or after A made refused calls (misspelt attribute, wrong '
-        'child), or while A probes its integer-typed attributes and values with equal values of another Python kind (2.0, '
+        'child), or with both threads building their element unchecked and switching checking on through the setter, or while A probes its integer-typed attributes and values with equal values of another Python kind (2.0, '
         'Fraction(2), Decimal(2), True: the answers are part of A\'s result), to completion in the gap; each k in a child forked from a pristine parent. Both threads\' results '
         '(serialisation text or exception class) are compared with the single-threaded result from a pristine child. Plus a '
         'free-running stress (8 threads, switch interval 1e-6). non-trivial = a schedule in which B actually ran inside A\'s '
@@ -172,6 +172,11 @@ def do_scenario(spec):
                 raise last
         else:
             obj = cls()
+        if spec.get('toggle'):
+            # built with checking off, then switched on through the public setter before the children arrive
+            vv = obj.value_
+            obj = cls(vv, xsd_check=False) if spec['values'] else cls(xsd_check=False)
+            obj.xsd_check = True
         if spec.get('misuse'):
             # refused calls first (their exceptions are part of ordinary use): a misspelt attribute read and write, an
             # undeclared constructor keyword, a value of the wrong kind, a child that does not belong here
@@ -355,6 +360,9 @@ def families_of(cn):
         out.append(('other-values-B', specA, alt))
     # A probes, before each of its assignments, Python values of another kind that compare equal to the value B assigns
     # (2.0, Fraction(2), Decimal(2), True ...): the answers (accepted / refused with which message) are part of A's result
+    # both threads build their element with checking off and switch it on through the setter before adding children
+    if specA['children']:
+        out.append(('check-switched-on-by-setter', dict(specA, toggle=True), dict(specA, toggle=True)))
     specI = scenario_spec(cn, 'integers')
     if any(_other_kinds(lex) for _, lex in specI['attrs']) or (specI['values'] and _other_kinds(specI['values'][0])):
         out.append(('equal-values-of-another-kind-A', dict(specI, probe_kinds=True), specI))
